@@ -28,6 +28,11 @@ CHECKS = {
             'Random configurations (class, max_size, on_miss, initial values) and histories (<=30/80 ops over a key pool of max_size+3, up to 3 live caches created by copy()) against a reference cache; after every step contents, len<=max_size, membership, the three counters, the list of on_miss calls, return values/exception types and ==/!= against dicts and another cache are compared for every live cache; at the end each cache is probed by inserting fresh keys and recording which key disappears, the victim sequence must equal the reference recency order. Exploration is the right level: the history space is unbounded; small pools make evictions and re-insertions frequent (label counts in the evidence).',
             'Trusts the reference model; iteration order and popitem choice are not compared; counters of a copy are tracked from the values read at creation.',
             'DESIGN.md section 2, C02'),
+    'C11': ('exploration',
+            'model-based testing: Hypothesis-generated list/set-style histories on IndexedSet against a plain list + Python set algebra, with macro-operations aimed at the dead-interval table',
+            'Random histories (<=25/40 ops) on small sets (0-12 items over a 14-item universe) and large ones (40/100/400/3500 items, so the dead-interval bookkeeping is exercised below and above its compaction thresholds: >1/8 dead, >384 intervals), including macro-operations that remove runs, tails and slots adjacent to earlier removals in every order; after every step list(s), len, reversed, s[i] for every valid index (sampled above 64 items, always including the neighbourhood of recent removals), index() of every item, membership/count and drawn slices are compared with a plain list; n-ary union/intersection/difference, symmetric_difference, operators (also reflected with a real set on the left), in-place forms and predicates are compared with Python sets including result order.',
+            'Trusts list/set semantics of CPython as the oracle; indices outside the valid range, negative slice steps and self-as-operand are not generated.',
+            'DESIGN.md section 2, C11'),
 }
 
 NOT_YET = 'check not built yet in this revision of /verif (work in progress; see DESIGN.md section 8)'
